@@ -207,9 +207,28 @@ pub fn main(args: &Args) -> i32 {
     let replay_codes: Option<Vec<String>> = args
         .get("replay")
         .map(|s| s.split_whitespace().map(|x| x.to_string()).collect());
+    // --replay-file: one schedule per line (behaviours of HalfLock.tla printed by TLC): each is
+    // forced onto the real code; a token that is not enabled is a divergence
+    let replay_list: Option<Vec<Vec<String>>> = args.get("replay-file").map(|f| {
+        std::fs::read_to_string(f)
+            .unwrap()
+            .lines()
+            .filter(|l| !l.trim().is_empty())
+            .map(|l| l.split_whitespace().map(|x| x.to_string()).collect())
+            .collect()
+    });
+    let mut diverged = 0usize;
+    let mut diverged_first = String::new();
+    let mut not_consumed = 0usize;
     loop {
         if count >= max {
             break;
+        }
+        if let Some(l) = &replay_list {
+            if count >= l.len() {
+                exhausted = true;
+                break;
+            }
         }
         let (hl, bodies, locs, init_ptr) = if mode == "chain" {
             build_chain(scn.readers.max(2), scn.stores)
@@ -231,7 +250,19 @@ pub fn main(args: &Args) -> i32 {
         cfg.handler_atomic = args.flag("handler-atomic");
         cfg.preemption_bound = args.get("preempt").map(|s| s.parse().unwrap());
         cfg.deliver = Some(Arc::new(move |_sig, _id| reader_section(&deliver_hl)));
-        let res = if let Some(codes) = &replay_codes {
+        let res = if let Some(l) = &replay_list {
+            let mut rp = Replay::new(l[count].clone());
+            let r = sched::run(bodies, &mut rp, &cfg);
+            if rp.diverged {
+                diverged += 1;
+                if diverged_first.is_empty() {
+                    diverged_first = format!("line {} at token {}: {}", count, rp.diverged_at, l[count].join(" "));
+                }
+            } else if rp.pos < l[count].len() {
+                not_consumed += 1;
+            }
+            r
+        } else if let Some(codes) = &replay_codes {
             let mut rp = Replay::new(codes.clone());
             sched::run(bodies, &mut rp, &cfg)
         } else if mode == "chain" {
@@ -291,6 +322,9 @@ pub fn main(args: &Args) -> i32 {
         if replay_codes.is_some() || mode == "chain" {
             break;
         }
+        if replay_list.is_some() {
+            continue;
+        }
         if mode == "dfs" && !dfs.advance() {
             exhausted = true;
             break;
@@ -300,7 +334,10 @@ pub fn main(args: &Args) -> i32 {
     abs_w.flush().unwrap();
     sched_w.flush().unwrap();
     println!(
-        "{{\"schedules\":{},\"events\":{},\"distinct_abs_traces\":{},\"distinct_fine_traces\":{},\"exhausted\":{},\"nondeterminism\":{},\"chain_writer_hints\":{},\"anomalies\":[{}]}}",
+        "{{\"replay_diverged\":{},\"replay_not_consumed\":{},\"replay_first_divergence\":\"{}\",\"schedules\":{},\"events\":{},\"distinct_abs_traces\":{},\"distinct_fine_traces\":{},\"exhausted\":{},\"nondeterminism\":{},\"chain_writer_hints\":{},\"anomalies\":[{}]}}",
+        diverged,
+        not_consumed,
+        diverged_first,
         count,
         events,
         distinct.len(),
